@@ -2,13 +2,15 @@
 META = dict(
   level_text='Bounded model checking of the mechanisms that decide where open paths contribute (contribution predicate, winding numbers of the region an open edge starts in), against the definition in the property, for all symbolic pre-states within bounds. Piece geometry and total length over all inputs are not decided (whole sweep).',
   level_note='Same invariant (I) and trusted base as C01.',
-  functions=['ClipperBase::IsContributingOpen', 'ClipperBase::SetWindCountForOpenPathEdge', 'AddPaths_ (open paths)', 'ClipperBase::IntersectEdges (open-path part)'],
+  functions=['ClipperBase::IsContributingOpen', 'ClipperBase::SetWindCountForOpenPathEdge', 'AddPaths_ (open paths)', 'ClipperBase::IntersectEdges (open-path part)', 'BuildPath64 (open pieces)'],
   assumptions=['AEL prefixes of at most 3 edges', '|winding numbers| <= 10^6'],
   outside=['piece geometry and length (needs the whole sweep)'],
 )
 LMA = {'std::unique_ptr<Clipper2Lib::LocalMinima, std::default_delete<Clipper2Lib::LocalMinima> >& std::vector<std::unique_ptr<Clipper2Lib::LocalMinima, std::default_delete<Clipper2Lib::LocalMinima> >, std::allocator<std::unique_ptr<Clipper2Lib::LocalMinima, std::default_delete<Clipper2Lib::LocalMinima> > > >::emplace_back<std::unique_ptr<Clipper2Lib::LocalMinima': 'stub_locmin_append'}
 OSTEP = {'Clipper2Lib::ClipperBase::AddOutPt(': 'stub_addoutpt', 'Clipper2Lib::ClipperBase::StartOpenPath(': 'stub_startopen'}
+APP = {'Clipper2Lib::Point<long>& std::vector<Clipper2Lib::Point<long>, std::allocator<Clipper2Lib::Point<long> > >::emplace_back<Clipper2Lib::Point<long>&>(': 'stub_path_append'}
 OBLIGATIONS = [
+  O('C05.e-buildpath-open-3', 'eng_units.cpp', 'harness_buildpath', defs=['RN=3', 'G=2'], replace=APP, unwind=8, bound='output rings of 3 points on [0,2]^2, open and closed, both directions', desc='an open piece is always emitted (the tiny-triangle filter applies to closed paths only); repeated points dropped'),
   O('C05.c-intersect-open-step', 'eng_wind.cpp', 'harness_intersect_open_step', replace=OSTEP, unwind=4, timeout=300, bound='an open edge and a closed edge adjacent in either order; all clip types, fill rules, closed-edge type/direction, winding numbers |w|<=1000', desc='after IntersectEdges the open edge is hot exactly when it contributes on the far side of the closed edge; a point is emitted iff its contribution changed; the closed edge is untouched'),
   O('C05.d-addpaths-open-4', 'eng_units.cpp', 'harness_addpaths_open', defs=['ON=4'], replace=LMA, unwind=9, timeout=300, bound='open path of 4 vertices on [0,3]^2 (coincident vertices incl. last == first allowed)', desc='every vertex differing from its predecessor is kept in order; first flagged OpenStart, last OpenEnd; minima flagged open'),
   O('C05.a-contributing-open', 'eng_wind.cpp', 'harness_contrib_open', bound='4 clip types x 4 fill rules x |w|<=1e6', desc='IsContributingOpen == inside clip / outside both / outside clip'),
